@@ -430,6 +430,9 @@ func (it *Interp) store(l ast.Expr, env *Env, v Value) {
 	}
 	if ie, ok := l.(*ast.IndexExpr); ok {
 		base := it.eval(ie.X, env)
+		if p, ok := base.(*Ptr); ok {
+			base = p.cell.v
+		}
 		idx := it.eval(ie.Index, env)
 		switch b := base.(type) {
 		case *MapV:
@@ -807,6 +810,9 @@ func (it *Interp) eval(e ast.Expr, env *Env) Value {
 		return it.selector(x, env)
 	case *ast.IndexExpr:
 		base := it.eval(x.X, env)
+		if p, ok := base.(*Ptr); ok {
+			base = p.cell.v // pointer to array: automatic dereference
+		}
 		idx := it.eval(x.Index, env)
 		switch b := base.(type) {
 		case *SliceV:
@@ -1187,6 +1193,9 @@ func (it *Interp) callValue(at ast.Node, fn Value, args []Value) []Value {
 		}
 		if h, ok := it.natives[f.name]; ok {
 			return h(it, expandVariadic(args))
+		}
+		if res, ok := it.callPure(f.name, expandVariadic(args)); ok {
+			return res
 		}
 		it.fail(at, "call of library function %s is not modelled", f.name)
 	case *Closure:
